@@ -32,6 +32,8 @@ def main():
         if r.returncode != 0:
             print(sid, 'patch does not apply:', r.stdout[-300:]); rows.append((sid, meta['property'], 'PATCH-FAILS', '')); continue
         res = {}
+        # evidence files describe the unchanged tree: keep them out of reach of the runs on the patched tree
+        sh('rm -rf /tmp/verif_evidence_keep && cp -a %s/evidence /tmp/verif_evidence_keep' % V)
         try:
             for c in checks:
                 t0 = time.time()
@@ -40,6 +42,7 @@ def main():
                 res[c] = dict(exit=r.returncode, wall_s=round(time.time() - t0, 1), lines=viol[:6], tail=r.stdout.splitlines()[-1:] if r.stdout else [])
         finally:
             sh('git -C /repo checkout -- .')
+            sh('rm -rf %s/evidence && mv /tmp/verif_evidence_keep %s/evidence' % (V, V))
         meta.setdefault('results', {})[tier] = res
         json.dump(meta, open(d + '/meta.json', 'w'), indent=1)
         det = [c for c in res if res[c]['exit'] == 1]
